@@ -125,34 +125,86 @@ def r2(ctx, prog):
                     wd = d
     if wd is None:
         raise AnalysisBroken('BufferedFd::send: result of fd_.write is not stored in a local')
-    gs = [c for c, br in q.lexical_guards(s, w['i']) if br == 'else' and cond_mentions(s, c, 'state_') and cond_mentions(s, c, 'send_buff_.readableSize()')]
-    ctx.ob('C06.R2', '%s|direct-only-when-idle' % s.name, bool(gs), 'the direct write is the else-branch of (not running || queue non-empty): nothing overtakes queued bytes', where=s.loc(w['i']))
-    args = [s.path(a) for a in w['args']]
+    # the direct write happens only when running with an empty queue: both facts hold on every path to it
+    wp = q.pt(s, w)
+    empty = queue_empty_fact(s)
+    running = False
+    for cond, k, blk in s.cfg.controlling_branches(wp):
+        cs = s.s(s.strip_casts(cond))
+        if cs and cs['k'] == 'BinaryOperator' and cs.get('op') in ('==', '!=') and any(x.endswith('state_') for x in q.subtree_fields(s, cond)) and \
+                any((s.stmts[y].get('n') or '') == 'kRunning' for y in s.walk(cond)):
+            running = running or ((cs['op'] == '==') == (k == 0))
+    ctx.ob('C06.R2', '%s|direct-only-when-idle' % s.name, running and bool(empty.get(wp)),
+           'the direct write is reached only with state_ == kRunning and an empty send queue: nothing overtakes queued bytes', where=s.loc(w['i']))
+    # what is queued after the write attempt, as linear forms over (data_ptr, data_size, W = result of the write)
+    from tbxlint import lin
+    from tbxlint.affine import Aff, Ptr
+    dp, ds = s.params[0]['n'], s.params[1]['n']
+    W = Aff.sym('local:' + wd['n'])
+    def w_sign_guards(pt):
+        # 'neg' if every path to pt has W < 0 (write failed), 'nonneg' if every path has W >= 0, else None
+        out = None
+        for cond, k, blk in s.cfg.controlling_branches(pt):
+            cs = s.s(s.strip_casts(cond))
+            if not (cs and cs['k'] == 'BinaryOperator' and cs.get('op') in ('>=', '<', '>', '<=')):
+                continue
+            l, r = lin.lin(s, cs['ch'][0], s.cfg.point_of(cond)), lin.lin(s, cs['ch'][1], s.cfg.point_of(cond))
+            if l == W and isinstance(r, Aff) and r.is_const() and r.c == 0:
+                t = {'>=': 'nonneg', '<': 'neg'}.get(cs['op'])
+                if t:
+                    out = t if k == 0 else {'nonneg': 'neg', 'neg': 'nonneg'}[t]
+        return out
+    n_rem = n_whole = 0
     for a in sb(s, 'append'):
-        if not s.cfg.exists_path(q.pt(s, w), q.pt(s, a)):
+        if not s.cfg.exists_path(wp, q.pt(s, a)):
             continue
-        a0, a1 = a['args'][0], a['args'][1]
-        uses_w = any(s.stmts[x].get('d') == wd['d'] for x in s.walk(a1) if s.stmts[x]['k'] == 'DeclRefExpr')
-        if uses_w:
-            x = s.s(s.strip_casts(a1))
-            ok_len = x['k'] == 'BinaryOperator' and x.get('op') == '-' and s.path(x['ch'][0]) == args[1] and s.s(s.strip_casts(x['ch'][1])).get('d') == wd['d']
-            # pointer: local initialised as data_ptr + wsize, or the expression itself
-            ptr_ids = list(s.walk(a0))
-            p0 = s.s(s.strip_casts(a0))
-            if p0['k'] == 'DeclRefExpr' and p0.get('dk') == 'Var':
-                for dfn in rd.local_defs(s, p0['d']):
-                    if dfn['rhs'] is not None:
-                        ptr_ids += list(s.walk(dfn['rhs']))
-            ok_ptr = any(s.stmts[y]['k'] == 'BinaryOperator' and s.stmts[y].get('op') == '+' and
-                         any(s.stmts[z].get('d') == wd['d'] for z in s.walk(y) if s.stmts[z]['k'] == 'DeclRefExpr') and
-                         args[0] in q.subtree_paths(s, y) for y in ptr_ids)
-            g = [c for c, br in q.lexical_guards(s, a['i']) if br == 'then' and any(s.stmts[z].get('d') == wd['d'] for z in s.walk(c) if s.stmts[z]['k'] == 'DeclRefExpr') and
-                 s.s(s.strip_casts(c)).get('op') == '<']
-            ctx.ob('C06.R2', '%s|remainder' % s.name, ok_len and ok_ptr and bool(g), 'partial write queues (data_ptr + wsize, data_size - wsize) under wsize < data_size', where=s.loc(a['i']))
+        ap = q.pt(s, a)
+        v0, v1 = lin.lin(s, a['args'][0], ap), lin.lin(s, a['args'][1], ap)
+        sign = w_sign_guards(ap)
+        if isinstance(v0, Ptr) and isinstance(v1, Aff) and v0 == Ptr('param:' + dp, W) and v1 == Aff.sym(ds) - W:
+            n_rem += 1
+            ctx.ob('C06.R2', '%s|remainder' % s.name, sign == 'nonneg', 'partial write queues exactly (data_ptr + W, data_size - W) where W >= 0 is what write() returned' if sign == 'nonneg' else
+                   'the remainder is queued on a path where the write may have failed (W < 0)', where=s.loc(a['i']))
+        elif isinstance(v0, Ptr) and isinstance(v1, Aff) and v0 == Ptr('param:' + dp, Aff(0)) and v1 == Aff.sym(ds):
+            n_whole += 1
+            g = [c for c, br in q.lexical_guards(s, a['i']) if 'errno' in ' '.join(q.subtree_paths(s, c)) + ' '.join(x.get('callee', '') for x in q.subtree_calls(s, c))]
+            ctx.ob('C06.R2', '%s|eagain-whole' % s.name, sign == 'neg' and bool(g),
+                   'the whole datum is queued only where the write failed (W < 0) with EAGAIN' if sign == 'neg' and g else
+                   'the whole datum is queued on a path where the write may have succeeded: the bytes already written are sent twice', where=s.loc(a['i']))
         else:
-            whole = s.path(a0) == args[0] and s.path(a1) == args[1]
-            g = [c for c, br in q.lexical_guards(s, a['i']) if br == 'then' and 'errno' in ' '.join(q.subtree_paths(s, c)) + ' '.join(x.get('callee', '') for x in q.subtree_calls(s, c))]
-            ctx.ob('C06.R2', '%s|eagain-whole' % s.name, whole and bool(g), 'the EAGAIN branch queues the whole datum', where=s.loc(a['i']))
+            ctx.ob('C06.R2', '%s|queued-after-write' % s.name, False,
+                   'after the write attempt send() queues (%s, %s), which is neither the unsent remainder (data_ptr + W, data_size - W) nor the whole datum: bytes are lost or duplicated' % (v0, v1),
+                   where=s.loc(a['i']))
+    ctx.ob('C06.R2', '%s|remainder-present' % s.name, n_rem >= 1,
+           'a partial write queues its remainder' if n_rem else 'no path queues the unsent remainder of a partial write: the tail of the datum is lost', where=s.loc(w['i']))
+    # no loss: from a successful write every path to the exit either queues the remainder or passes a test showing W >= data_size
+    rem_pts = [q.pt(s, a) for a in sb(s, 'append') if s.cfg.exists_path(wp, q.pt(s, a))]
+    def edge_ok(bb, kk):
+        b_ = s.cfg.blocks[bb]
+        if b_.cond is None:
+            return True
+        cs = s.s(s.strip_casts(b_.cond))
+        if cs and cs['k'] == 'BinaryOperator' and cs.get('op') in ('<', '>=', '>', '<='):
+            cp = s.cfg.point_of(b_.cond)
+            l, r = lin.lin(s, cs['ch'][0], cp), lin.lin(s, cs['ch'][1], cp)
+            # the edge on which "W < data_size" is false is harmless (everything was written); W < 0 edges are the failure branch
+            if l == W and r == Aff.sym(ds):
+                full = {'<': 1, '>=': 0}.get(cs['op'])
+                if full is not None and kk == full:
+                    return False
+            if l == Aff.sym(ds) and r == W:
+                full = {'>': 1, '<=': 0}.get(cs['op'])
+                if full is not None and kk == full:
+                    return False
+            if l == W and isinstance(r, Aff) and r.is_const() and r.c == 0:
+                neg = {'>=': 1, '<': 0}.get(cs['op'])
+                if neg is not None and kk == neg:
+                    return False
+        return True
+    lost = s.cfg.exists_path(wp, 'exit', avoid=rem_pts, edge_filter=edge_ok)
+    ctx.ob('C06.R2', '%s|no-silent-drop' % s.name, not lost,
+           'after a successful write every path to the exit queues the remainder unless W >= data_size' if not lost else
+           'a path leaves send() after a successful partial write (0 <= W < data_size) without queuing the remainder', where=s.loc(w['i']))
 
 
 def r3(ctx, prog):
